@@ -10,6 +10,7 @@ import (
 	"os"
 	"os/exec"
 	"path/filepath"
+	"runtime"
 	"runtime/debug"
 	"sort"
 	"strconv"
@@ -124,6 +125,19 @@ func (w *W) watchdog() {
 		w.guardMu.Lock()
 		c, at, limit := w.guardCase, w.guardAt, w.guardLimit
 		w.guardMu.Unlock()
+		if c != "" && limit < HangAfter {
+			// a family whose cost is known to be tiny: a heap of gigabytes is as unbounded as a minute of CPU
+			var ms runtime.MemStats
+			runtime.ReadMemStats(&ms)
+			if ms.HeapAlloc > 3<<30 {
+				w.Violate(Violation{Kind: "memory-blowup", Case: c, Detail: fmt.Sprintf("heap grew to %d MiB while this case was running (inputs of this family take kilobytes)", ms.HeapAlloc>>20), Size: 1})
+				w.Inexhaustive("worker stopped at a case that exhausts memory")
+				if w.onHang != nil {
+					w.onHang()
+				}
+				return
+			}
+		}
 		if c != "" && time.Since(at) > limit {
 			w.Violate(Violation{Kind: "hang", Case: c, Detail: fmt.Sprintf("still running after %v", limit), Size: 1})
 			w.Inexhaustive("worker stopped at a hanging case")
